@@ -227,7 +227,7 @@ def clean_pass(ctx, rid):
     mention `old` (it raises KeyError the second time)."""
     from .. import sym
     C = "ppci/opt/clean.py"
-    ctx.rule(rid, "CleanPass: an empty block is bypassed only when that does not give its target two edges from one predecessor while the target has phis; when two blocks are glued, the phis of every DISTINCT successor are re-pointed exactly once", floor=4)
+    ctx.rule(rid, "CleanPass: an empty block is bypassed only when that does not give its target two edges from one predecessor while the target has phis; when two blocks are glued, the phis of every DISTINCT successor are re-pointed exactly once, the appended block's own phis are resolved first and the entry block is never appended", floor=6)
     rb = ctx.fn(C, "CleanPass.remove_empty_blocks")
     site = C + ":CleanPass.remove_empty_blocks"
     ri = [c for c in calls_in(rb, "replace_incoming")]
@@ -260,6 +260,29 @@ def clean_pass(ctx, rid):
     if loop:
         ok, det = iterates_distinct(gb, loop[-1].iter)
     ctx.ob(rid, site, "replace_incoming runs once per distinct successor (Block.successors lists a block twice for `cjmp c ? S : S`; the second call raises KeyError)", ok, construct="distinct-successors", node=ri2[0], detail="iterates " + det)
+    # the entry block is never appended to a predecessor (function.entry would name a removed block)
+    fs = ctx.fn(C, "CleanPass.find_single_predecessor_block")
+    rets = [r for r in walk_no_nested(fs) if isinstance(r, ast.Return) and r.value is not None and not (isinstance(r.value, ast.Constant) and r.value.value is None)]
+    ctx.need(bool(rets), "find_single_predecessor_block: no block is returned")
+    for r in rets:
+        b = norm(r.value)
+        cs = sym.conjuncts(r, fs, {})
+        ok = any((pol is False and norm(c) in (b + ".is_entry", "%s is function.entry" % b, "%s is %s.function.entry" % (b, b))) or (pol is True and norm(c) in ("%s is not function.entry" % b,)) for c, pol in cs)
+        ctx.ob(rid, C + ":CleanPass.find_single_predecessor_block", "the entry block is never chosen to be appended to its predecessor (a loop back to the entry block gives it one; function.entry would name a removed block)", ok, construct="entry-not-glued", node=r,
+               detail="conditions in force: %s" % "; ".join("%s%s" % ("" if pol else "not ", " ".join(norm(c).split())[:50]) for c, pol in cs))
+    # phis of the appended block are resolved to their single incoming value before its instructions are moved
+    moves = [l for l in walk_no_nested(gb) if isinstance(l, ast.For) and any(isinstance(c, ast.Call) and isinstance(c.func, ast.Attribute) and c.func.attr == "add_instruction" for c in ast.walk(l))]
+    ctx.need(len(moves) == 1, "glue_blocks: the loop that moves the instructions was not found")
+    b1, b2 = [a.arg for a in gb.args.args if a.arg != "self"][:2]
+    res = [l for l in walk_no_nested(gb) if isinstance(l, ast.For) and norm(l.iter) == b2 + ".phis" and l.lineno < moves[0].lineno]
+    ok, det = False, "no loop over %s.phis before the instructions are moved" % b2
+    if res:
+        v = norm(res[0].target)
+        rep = [c for c in ast.walk(res[0]) if isinstance(c, ast.Call) and norm(c.func) == v + ".replace_by" and norm(c.args[0]) in ("%s.get_value(%s)" % (v, b1), "%s.inputs[%s]" % (v, b1))]
+        rem = [c for c in ast.walk(res[0]) if isinstance(c, ast.Call) and norm(c.func) in (v + ".remove_from_block", b2 + ".remove_instruction")]
+        ok = len(rep) == 1 and len(rem) == 1 and rep[0].lineno < rem[0].lineno
+        det = "replace_by(incoming value): %d, removal: %d" % (len(rep), len(rem))
+    ctx.ob(rid, site, "a phi of the appended block is replaced by its value for the one predecessor and removed before the instructions are moved (it would end up in the middle of the merged block, naming that block as its own predecessor)", ok, construct="phis-resolved", detail=det)
 
 
 def iterates_distinct(fn, it):
